@@ -22,7 +22,7 @@ func (C20) ID() string { return "C20" }
 
 const recoveryName = "Recovered Messages"
 
-var c20Kinds = []string{"append", "arm", "disarm", "copyout", "moveout", "protect", "list", "restart", "size", "move", "expunge-rec"}
+var c20Kinds = []string{"append", "arm", "disarm", "copyout", "moveout", "protect", "list", "restart", "size", "move", "expunge-rec", "reappend"}
 
 func (C20) Generate(r *core.Rand, tier string, idx int) *core.Scenario {
 	sc := &core.Scenario{Property: "C20", Cfg: map[string]int{}}
@@ -31,7 +31,7 @@ func (C20) Generate(r *core.Rand, tier string, idx int) *core.Scenario {
 		sc.Cfg["recfail"] = 1 // remote failures stay armed while messages are moved out of the recovery mailbox
 	}
 	//                 app arm dis cpo mvo pro lst rst siz mov exr
-	weights := []int{16, 8, 3, 4, 4, 4, 3, 1, 2, 2, 1}
+	weights := []int{16, 8, 3, 4, 4, 4, 3, 1, 2, 2, 1, 4}
 	n := r.Range(15, 45)
 	for i := 0; i < n; i++ {
 		a := core.Action{K: c20Kinds[r.Weighted(weights)]}
@@ -170,6 +170,60 @@ func (C20) Execute(sc *core.Scenario, keepLog bool) *core.Result {
 					} else if !recHas(msg.Marker) {
 						obj, _ := model.NewObj(msg.Marker, msg.Bytes, nil)
 						rec.Add(obj, false)
+						recovered++
+					} else {
+						deduped++
+					}
+				}
+				check("conservation")
+			case "reappend":
+				// a client uploads bytes it fetched earlier: they carry the server's ID header of
+				// a message the server still knows, which takes the "known message" path
+				src := e.R.Boxes[m.box(a.Arg(0))]
+				if len(src.Members) == 0 {
+					break
+				}
+				q := 1 + abs(a.Arg(1))%len(src.Members)
+				o := src.Members[q-1].Obj
+				dst := m.box(a.Arg(2))
+				s.M.Reset(src.Name, true)
+				if !s.Cmd("EXAMINE %s", Quote(src.Name)).OK() {
+					s.M.Unselect()
+					break
+				}
+				fr := s.Cmd("FETCH %d (BODY.PEEK[])", q)
+				var raw []byte
+				for _, l := range fr.Lines {
+					if _, kw, ok := l.Num(); ok && kw == "FETCH" {
+						if fd, err := wire.ParseFetch(l); err == nil {
+							if n, ok := fd.Items["BODY[]"]; ok {
+								raw = []byte(n.Str)
+							}
+						}
+					}
+				}
+				s.Cmd("UNSELECT")
+				s.M.Unselect()
+				if raw == nil {
+					break
+				}
+				r := s.Do(wire.WithLiteral(fmt.Sprintf("APPEND %s ", Quote(dst)), raw, ""))
+				e.Tr.Event("reappend", src.Name, q, dst, r.Status)
+				u.Conn.TakeCalls()
+				e.St.Probes["reappend_fetched_bytes"]++
+				if r.OK() {
+					uid := e.R.Boxes[dst].Add(o, false)
+					var uv, got uint32
+					if _, err := fmt.Sscanf(r.Code, "APPENDUID %d %d", &uv, &got); err != nil || got != uid {
+						e.Fail("appenduid", "APPEND of fetched bytes answered OK %q, model expects UID %d in %q", r.Code, uid, dst)
+					}
+				} else {
+					failed++
+					if !recHas(o.Marker) {
+						// identity (marker) is judged; the bytes are not: they carry the old ID
+						// header line, which the authoritative read strips only once
+						no, _ := model.NewObj(o.Marker, nil, nil)
+						rec.Add(no, false)
 						recovered++
 					} else {
 						deduped++
